@@ -38,6 +38,10 @@ impl Parser {
             ident.mark_const();
         }
 
+        if is_modify {
+            ident.mark_modify_alias();
+        }
+
         let ty = Self::r#type(ty).to_err_vec()?;
         let value: Value = Self::value(value)?;
 
